@@ -60,6 +60,15 @@ def r18_1_cycles(ctx, rid='R18.1'):
                 'the node is not recorded as an ancestor before its children are visited')
         r.check(all(any(norm(x) == anc for x in c.args) for c in rec), 'the same ancestor set is passed down', g.key('ancestors-passed'),
                 g.loc(), 'the recursive calls do not receive the ancestor set')
+        # ... each set in its own position: ancestors and finished nodes are both sets of ids, swapping them type-checks
+        own = g.fi.params[2:]
+        for c in rec:
+            passed = [norm(x) for x in c.args[1:]] + ['%s=%s' % (k.arg, norm(k.value)) for k in c.keywords]
+            r.check(passed == own and not c.keywords, 'recursive call passes (%s) in the positions it received them' % ', '.join(own),
+                    g.key('recursive-call-arguments:%s' % g.alpha.text(c.args[0])[:40] if c.args else 'recursive-call-arguments'), g.loc(c),
+                    'a recursive call of __check_no_cycles passes %s where the function takes %s: the set of ancestors and the set of '
+                    'finished nodes change roles on the way down, so a node shared between two branches is reported as containing itself '
+                    '(or a real cycle is missed)' % (passed, own))
         # the node leaves the ancestor set again on every normal exit after it was entered: otherwise a node referenced twice
         # by siblings ([*a, *a]) is reported as containing itself although the document is a tree
         rems = {g.nid(c) for c in g.walk() if isinstance(c, ast.Call) and isinstance(c.func, ast.Attribute) and norm(c.func.value) == anc
